@@ -53,6 +53,7 @@ type childSpec struct {
 	N        int    `json:"n,omitempty"`
 	MaxDepth int    `json:"max_depth"`
 	DurMs    int    `json:"dur_ms"`
+	CancelMs int    `json:"cancel_ms,omitempty"` // >0: no MaxDuration; the parent context is cancelled after CancelMs instead
 	ASLimit  uint64 `json:"as_limit"`
 	Compact  bool   `json:"compact,omitempty"` // Options.Compact: the formatted text EvalOne always builds has no indentation
 	MemLimit string `json:"mem_limit,omitempty"`
@@ -146,7 +147,15 @@ func childMain() {
 	o.MaxDuration = time.Duration(sp.DurMs) * time.Millisecond
 	o.Compact = sp.Compact
 	t0 := time.Now()
-	res, errs, _ := repl.EvalStringWithOption(context.Background(), o, src)
+	ctx := context.Background()
+	if sp.CancelMs > 0 {
+		o.MaxDuration = 0
+		var cancel context.CancelFunc
+		ctx, cancel = context.WithCancel(ctx)
+		tm := time.AfterFunc(time.Duration(sp.CancelMs)*time.Millisecond, cancel)
+		defer tm.Stop()
+	}
+	res, errs, _ := repl.EvalStringWithOption(ctx, o, src)
 	wall := time.Since(t0)
 	rep := childReport{WallMs: float64(wall.Microseconds()) / 1000, ResLen: len(res), Res: trunc(res, 64), HWMkB: readHWM(),
 		MemLimit: debug.SetMemoryLimit(-1), SrcLen: len(src)}
@@ -255,6 +264,9 @@ loop:
 		res.peakkB = res.rep.HWMkB
 	}
 	res.overrun = res.rep.WallMs - float64(sp.DurMs)
+	if sp.CancelMs > 0 {
+		res.overrun = res.rep.WallMs - float64(sp.CancelMs)
+	}
 	return res
 }
 
@@ -297,7 +309,7 @@ var maxOverrun, maxRSSRatio, maxOverrunClean, maxRSSRatioClean float64
 
 // judge one child run; kind is the program family used in signatures
 func judge(c *Ctx, kind string, sp childSpec, r childResult, wantGuard string) {
-	cs := fmt.Sprintf("CHILD depth=%d dur=%dms mem=%s compact=%v gen=%s n=%d src=%s", sp.MaxDepth, sp.DurMs, r.memLimit, sp.Compact, sp.Gen, sp.N, Hx([]byte(trunc(sp.Src, 300))))
+	cs := fmt.Sprintf("CHILD depth=%d dur=%dms cancel=%dms mem=%s compact=%v gen=%s n=%d src=%s", sp.MaxDepth, sp.DurMs, sp.CancelMs, r.memLimit, sp.Compact, sp.Gen, sp.N, Hx([]byte(trunc(sp.Src, 400))))
 	c.Count("child:" + kind)
 	switch {
 	case r.killed:
@@ -323,8 +335,12 @@ func judge(c *Ctx, kind string, sp childSpec, r childResult, wantGuard string) {
 		}
 	}
 	if r.overrun > slackMs {
-		c.Fail(kind+":deadline-overrun", cs, fmt.Sprintf("evaluation took %.0f ms with a %d ms deadline (front end alone %.0f ms, source %d bytes)",
-			r.rep.WallMs, sp.DurMs, r.rep.ParseMs, r.rep.SrcLen))
+		lim, how := sp.DurMs, "deadline"
+		if sp.CancelMs > 0 {
+			lim, how = sp.CancelMs, "cancellation"
+		}
+		c.Fail(kind+":deadline-overrun", cs, fmt.Sprintf("no return until %.0f ms after a %d ms %s: evaluation took %.0f ms (front end alone %.0f ms, source %d bytes), ended with: %.80s",
+			r.overrun, lim, how, r.rep.WallMs, r.rep.ParseMs, r.rep.SrcLen, strings.Join(r.rep.Errs, "|")))
 	}
 	limitkB := float64(memLimitkB)
 	if strings.HasSuffix(r.memLimit, "GiB") {
@@ -632,6 +648,64 @@ func sweepPrograms() []prog {
 	}
 }
 
+// ---------------------------------------------------------------- one long-running FINITE program per evaluator path
+// Every looping / recursion construct, alone and nested, with a body that contains no other construct that could
+// stop it.  Each program terminates by itself after several seconds (sizes calibrated on this sandbox, see
+// natural_ms in the thorough evidence); under a 200..400 ms deadline or cancellation it must come back at once with
+// the context error.  A guard missing in any single evaluator path therefore shows as
+// "<family>:deadline-overrun  no return until N ms after ..." (or :hang), not as a silently slower run.
+func boundedFamilies() []prog {
+	const arr = "a=0:3000; "   // 3000 elements: nested twice = 9e6 body evaluations
+	const arr3 = "a=0:210; "   // nested three times = 9.3e6
+	const mp = "m={}; for i=0:2600 {m[i]=i}; " // big map, built by a counted loop
+	const str = `s="abcdefghij"*170; `         // 1700 bytes
+	fs := []prog{
+		// for-in over an array value (evalForList), bodies without any call or other loop form
+		{"forin-array-2", arr + "n=0; for x=a {for y=a {n=n+1}}; n", ""},
+		{"forin-array-3", arr3 + "n=0; for x=a {for y=a {for z=a {n=n+1}}}; n", ""},
+		{"forin-array-arith", arr + "for x=a {for y=a {(x*3+y)%7-y/5}}", ""},
+		{"forin-array-idxassign", arr + "b=[0,0,0]; for x=a {for y=a {b[1]=y}}; b", ""},
+		{"forin-array-mapassign", arr + "t={}; for x=a {for y=a {t.k=y}}; t", ""},
+		{"forin-array-strconcat", arr + `for x=a {s=""; for y=a {s=s+"x"}}; len(s)`, ""},
+		{"forin-array-if", arr + "n=0; for x=a {for y=a {if y%2==0 {n=n+1} else {n=n-1}}}; n", ""},
+		{"forin-array-continue", arr + "for x=a {for y=a {if y>=0 {continue}; 1}}", ""},
+		{"forin-array-incr", arr + "n=0; for x=a {for y=a {n++}}; n", ""},
+		{"forin-array-prefix", arr + "for x=a {for y=a {-y; !true}}", ""},
+		{"forin-array-literals", arr + "for x=a {for y=a {[x,y]; {x:y}}}", ""},
+		{"forin-array-index", arr + "for x=a {for y=a {a[y]; a[1:3]}}", ""},
+		{"forin-array-builtins", arr + "n=0; for x=a {for y=a {n=n+len(a[0:3])+first(a)+len(rest(a[0:4]))}}; n", ""},
+		{"forin-array-catch-quote", arr + "for x=a {for y=a {catch(y); quote(y)}}", ""},
+		{"forin-array-in-func", "func run(a){n=0; for x=a {for y=a {n=n+1}}; n}; run(0:3000)", ""},
+		{"forin-array-in-lambda", "r=(a)=>{n=0; for x=a {for y=a {n=n+1}}; n}; r(0:3000)", ""},
+		{"forin-array-macro", arr + "lp=macro(body){quote(for x=a {for y=a {unquote(body)}})}; n=0; lp(n=n+1); n", ""},
+		// for-in over a map / a string / mixed
+		{"forin-map-2", mp + "n=0; for kv=m {for kw=m {n=n+1}}; n", ""},
+		{"forin-map-value", mp + "n=0; for kv=m {for kw=m {n=n+kw.value}}; n", ""},
+		{"forin-string-2", str + "n=0; for c=s {for d=s {n=n+1}}; n", ""},
+		{"forin-string-concat", str + `for c=s {t=""; for d=s {t=t+d}}; len(t)`, ""},
+		{"forin-mixed-3", "a=0:300; " + `s="abcdefghij"*20; ` + "m={}; for i=0:150 {m[i]=i}; n=0; for x=a {for c=s {for kv=m {n=n+1}}}; n", ""},
+		// condition loop, counted loops (finite)
+		{"forcond-finite", "n=0; for n<14000000 {n=n+1}; n", ""},
+		{"forcond-nested", "i=0; for i<3600 {i=i+1; j=0; for j<3600 {j=j+1}}; i", ""},
+		{"forcond-with-forin", arr + "k=0; for k<3000 {k=k+1; for y=a {y}}; k", ""},
+		{"forN-finite", "n=0; for 14000000 {n=n+1}; n", ""},
+		{"forN-nested", "for 3700 {for 3700 {1}}", ""},
+		{"forrange-nested", "n=0; for i=0:3600 {for j=0:3600 {n=i+j}}; n", ""},
+		{"forrange-forin", arr + "for i=0:3000 {for y=a {i+y}}", ""},
+		{"forin-forrange", arr + "for x=a {for j=0:3000 {x+j}}", ""},
+		// recursion that is exponential and not memoizable (reads a global), mutual recursion, lambdas
+		{"rec-fib-global", "g=0; func fib(n){g; if n<2 {return n}; fib(n-1)+fib(n-2)}; fib(31)", ""},
+		{"rec-mutual-global", "g=0; func ev(n){g; if n==0 {return 1}; od(n-1)+od(n-1)}; func od(n){g; if n==0 {return 0}; ev(n-1)+ev(n-1)}; ev(21)", ""},
+		{"forin-lambda-call", "g=1; a=0:2200; n=0; for x=a {for y=a {n=(z=>z+g)(y)}}; n", ""},
+		{"forrange-closure", "g=1; mk=(k)=>{()=>k+g}; n=0; for i=0:2000 {for j=0:1000 {n=mk(j)()}}; n", ""},
+		{"rec-in-forin", "g=0; func dn(n){g; if n<=0 {return 0}; dn(n-1)}; a=0:3000; for x=a {for y=a[0:40] {dn(20)}}", ""},
+	}
+	for i := range fs {
+		fs[i].want = "deadline"
+	}
+	return fs
+}
+
 type cfg struct {
 	depth, durMs int
 }
@@ -647,6 +721,14 @@ func runC09(c *Ctx) {
 	}
 	if c.ReplayCase != "" {
 		replay(c)
+		return
+	}
+	if os.Getenv("C09_CALIBRATE") != "" { // maintenance aid: natural run time of every bounded family (no check)
+		for _, p := range boundedFamilies() {
+			sp := childSpec{Src: p.src, MaxDepth: 400, DurMs: 60000, ASLimit: asLimit}
+			r := runChild(c, sp, memLimitStr, 90*time.Second)
+			fmt.Printf("calibrate %-28s wall=%8.0f ms peak=%7d kB exit=%d res=%.20q errs=%.80v\n", p.kind, r.rep.WallMs, r.peakkB, r.exit, r.rep.Res, r.rep.Errs)
+		}
 		return
 	}
 	// 1. corpus: the witnesses of the defects of the pinned tree (repaired), then the recorded findings
@@ -729,6 +811,31 @@ func runC09(c *Ctx) {
 			judge(c, src.kind, sp, runChild(c, sp, memLimitStr, time.Duration(d)*time.Millisecond+12*time.Second), src.want)
 		}
 	}
+	// one finite long-running program per evaluator path: deadline and external cancellation
+	fams := boundedFamilies()
+	for fi, p := range fams {
+		dur := 200 + 100*(fi%3)
+		sp := childSpec{Src: p.src, MaxDepth: 400, DurMs: dur, ASLimit: asLimit}
+		judge(c, p.kind, sp, runChild(c, sp, memLimitStr, 25*time.Second), p.want)
+		if c.Thorough() || fi%3 == 0 {
+			sp = childSpec{Src: p.src, MaxDepth: 400, CancelMs: 150 + 50*(fi%4), ASLimit: asLimit}
+			judge(c, p.kind, sp, runChild(c, sp, memLimitStr, 25*time.Second), p.want)
+		}
+		if c.Thorough() { // calibration: how long the program runs when nothing stops it (must be well above deadline + slack)
+			sp = childSpec{Src: p.src, MaxDepth: 400, DurMs: 40000, ASLimit: asLimit}
+			r := runChild(c, sp, memLimitStr, 60*time.Second)
+			if r.ok {
+				c.Extra["natural_ms_"+p.kind] = r.rep.WallMs
+				if len(r.rep.Errs) > 0 && !strings.Contains(r.rep.Errs[0], "context") {
+					c.Fail("harness:family-errors:"+p.kind, p.src, r.rep.Errs[0])
+				}
+				if r.rep.WallMs < 2.5*slackMs {
+					c.Count("calibration:too-fast:" + p.kind)
+				}
+			}
+		}
+	}
+	c.Extra["bounded_families"] = len(fams)
 	// deeply nested source text: sizes that the front end and the evaluator handle
 	depths := []int{1000, 5000}
 	if c.Thorough() {
@@ -791,6 +898,8 @@ func replay(c *Ctx) {
 		switch k {
 		case "depth":
 			sp.MaxDepth, _ = strconv.Atoi(v)
+		case "cancel":
+			sp.CancelMs, _ = strconv.Atoi(strings.TrimSuffix(v, "ms"))
 		case "dur":
 			sp.DurMs, _ = strconv.Atoi(strings.TrimSuffix(v, "ms"))
 		case "gen":
